@@ -692,6 +692,15 @@ def op_transposed(s, step, t, j, p, T, J, P):
     arg = None if ci == 0 and step["f1"] else header[ci]
     call = lambda: T.transposed(new, select_as_header=arg) if arg is not None else T.transposed(new)  # noqa: E731
     unique = len({repr(norm(v)) for v in vals}) == len(vals) and all(v is not None for v in vals)
+    try:
+        by_value = len(set(vals)) == len(vals)
+    except TypeError:
+        by_value = unique
+    if unique and not by_value:
+        # values that are equal but print differently (0.0 and -0.0, 1 and 1.0): whether they count as
+        # distinct headers is not specified (distinct_values compares values, the new header their text)
+        s.cls("transposed:equal-values-with-distinct-text")
+        return False
     if not unique:
         if any(v is None for v in vals):
             return False
